@@ -260,39 +260,6 @@ section HelpersB
 /-- ids in the registry are below the next id to be handed out -/
 def Reg.Fresh (r : Reg) : Prop := ∀ x ∈ r.live, x.2 < r.next
 
-private theorem filter_keep (l : List (Sid × Nat)) (n : Nat) (h : ∀ x ∈ l, x.2 < n) (p : Sid × Nat → Bool)
-    (hp : ∀ x, x.2 < n → p x = true) : l.filter p = l :=
-  List.filter_eq_self.2 (fun x hx => hp x (h x hx))
-
-/-- leaving a session: everything it subscribed (wait loops `a` ids from `n`, processes `b` ids after them) is
-    removed by the two unsubscribe passes and nothing else is -/
-private theorem unsub_all (l : List (Sid × Nat)) (sid : Sid) (n a b : Nat) (h : ∀ x ∈ l, x.2 < n) :
-    (((l ++ (List.range' n a).map (sid, ·)) ++ (List.range' (n + a) b).map (sid, ·)).filter
-        (fun x => !(List.range' n a).contains x.2)).filter (fun x => !(List.range' (n + a) b).contains x.2) = l := by
-  rw [List.filter_filter]
-  simp only [List.filter_append]
-  have h1 : l.filter (fun x => (!(List.range' (n + a) b).contains x.2) && !(List.range' n a).contains x.2) = l := by
-    apply List.filter_eq_self.2
-    intro x hx
-    have := h x hx
-    simp [List.mem_range']
-    constructor <;> intro _ <;> omega
-  have h2 : ((List.range' n a).map (sid, ·)).filter
-      (fun x => (!(List.range' (n + a) b).contains x.2) && !(List.range' n a).contains x.2) = [] := by
-    apply List.filter_eq_nil_iff.2
-    intro x hx
-    simp only [List.mem_map] at hx
-    obtain ⟨i, hi, rfl⟩ := hx
-    simp [hi]
-  have h3 : ((List.range' (n + a) b).map (sid, ·)).filter
-      (fun x => (!(List.range' (n + a) b).contains x.2) && !(List.range' n a).contains x.2) = [] := by
-    apply List.filter_eq_nil_iff.2
-    intro x hx
-    simp only [List.mem_map] at hx
-    obtain ⟨i, hi, rfl⟩ := hx
-    simp [hi]
-  rw [h1, h2, h3]; simp
-
 /-- state after some runs of one process object: the registry is the original one plus at most the current subscription -/
 private def RunInv (r : Reg) (sid : Sid) (st : Reg × Option Nat) : Prop :=
   r.next ≤ st.1.next ∧ st.1.pending = r.pending ∧ st.1.streams = r.streams ∧
@@ -336,66 +303,108 @@ end HelpersB
 
 section PropertyB
 
-/-- **C09 (b), one session.** From any registry state (other sessions may be live) in which the session id is not
-    pending, has no streams and subscription ids are fresh: for EVERY role, number of processes and outcome the
-    session is admitted, and at exit the registries are exactly as before (every subscription obtained is released,
-    the streams of the id are gone, the flag is cleared), every process was stopped exactly once and run at most
-    once. -/
-theorem session_cleans_up (r : Reg) (s : Sess) (hf : r.Fresh) (hp : s.sid ∉ r.pending) (hs : s.sid ∉ r.streams) :
-    (execute r s).1.pending = r.pending ∧ (execute r s).1.live = r.live ∧ (execute r s).1.streams = r.streams ∧
-    (execute r s).1.Fresh ∧
-    ((r.live.filter (·.1 = s.sid)).length = 0 → Clean s.nproc (execute r s).2) := by
-  have hpf : r.pending.filter (· ≠ s.sid) = r.pending :=
+/-- **C09 (b), one session, retry rounds included.** From any state of the registries (other sessions may be live)
+    in which the session id is not pending, has no streams and no leftover subscriptions: for EVERY role, number
+    of processes, outcome of the first attempt and — for retryable processes — every second attempt (`handleError`:
+    bully election won by this relayer or by another one, or the wait after a SubsetError; started again or not;
+    ended by success, error, cancellation or the elected coordinator's silence), the session is admitted and at exit
+    BOTH communications' registries are exactly as before (every subscription obtained — wait loops, both
+    fail-watches, the election's six, every Run of every process — is released; streams are gone; the flag is
+    cleared), every process was stopped exactly once and run at most twice. -/
+theorem session_cleans_up (l : Led) (s : Sess) (hp : s.sid ∉ l.pending) (hs : s.sid ∉ l.streams)
+    (hes : s.sid ∉ l.estreams) (hl : l.live s.sid = []) (hel : l.elive s.sid = []) :
+    (execute l s).1.pending = l.pending ∧ (execute l s).1.live = l.live ∧ (execute l s).1.streams = l.streams ∧
+    (execute l s).1.elive = l.elive ∧ (execute l s).1.estreams = l.estreams ∧
+    Clean s.nproc (execute l s).2 := by
+  have hpf : l.pending.filter (· ≠ s.sid) = l.pending :=
     List.filter_eq_self.2 (fun x hx => by simp; intro e; exact hp (e ▸ hx))
-  have hsf : r.streams.filter (· ≠ s.sid) = r.streams :=
+  have hsf : l.streams.filter (· ≠ s.sid) = l.streams :=
     List.filter_eq_self.2 (fun x hx => by simp; intro e; exact hs (e ▸ hx))
-  have hl := unsub_all r.live s.sid r.next (waitSubs s.role) (if s.out.ran then s.nproc else 0) hf
-  simp only [execute, hp, if_false, Reg.subscribe, Reg.unsubscribe, hl, List.filter_cons, hpf, hsf]
-  simp only [ne_eq, not_true_eq_false, decide_false, Bool.false_eq_true, if_false]
-  refine ⟨trivial, trivial, trivial, ?_, ?_⟩
-  · intro x hx; have := hf x hx; simp only; omega
-  · intro h0
-    simp only [Clean, h0, hs, hp]
-    refine ⟨by split <;> simp, trivial, Nat.le_refl _, trivial, by simp, trivial, ?_, by simp⟩
-    intro n hn; simp [List.mem_replicate] at hn; rw [hn.2]; split <;> omega
+  have hef : l.estreams.filter (· ≠ s.sid) = l.estreams :=
+    List.filter_eq_self.2 (fun x hx => by simp; intro e; exact hes (e ▸ hx))
+  have hp' : ∀ a ∈ l.pending, ¬a = s.sid := fun a ha e => hp (e ▸ ha)
+  have hs' : ∀ a ∈ l.streams, ¬a = s.sid := fun a ha e => hs (e ▸ ha)
+  have hes' : ∀ a ∈ l.estreams, ¬a = s.sid := fun a ha e => hes (e ▸ ha)
+  have upd_upd : ∀ (f : Sid → List Blk) (sid : Sid) (v w : List Blk), upd (upd f sid v) sid w = upd f sid w := by
+    intro f sid v w; funext x; unfold upd; split <;> rfl
+  have upd_self : ∀ (f : Sid → List Blk) (sid : Sid) (v : List Blk), upd f sid v sid = v := by
+    intro f sid v; simp [upd]
+  have same : ∀ (f : Sid → List Blk) (sid : Sid), f sid = [] → upd f sid [] = f := by
+    intro f sid h; funext x; unfold upd; split <;> simp_all
+  obtain ⟨sid, role, nproc, out, retryable, second⟩ := s
+  simp only at hp hs hes hpf hsf hef hl hel hp' hs' hes'
+  have sl := same l.live sid hl
+  have se := same l.elive sid hel
+  cases hh : (Sess.handled ⟨sid, role, nproc, out, retryable, second⟩)
+  · -- handleError is not entered
+    cases hran : out.ran <;>
+      simp [execute, executeWith, hh, hp, hran, Led.sub, Led.unsub, Led.unsubOpt, upd_upd, upd_self, sl, se, hl, hel,
+        hp', hs', hes', sizeOf', Clean, liveOf, hs, hes] <;>
+      ((repeat' constructor) <;> first | assumption | omega | (split <;> simp) | (intro n hn; omega) | (simp +arith [List.filter] <;> omega))
+  · cases hran : out.ran <;> rcases second with _ | ⟨el, fin⟩
+    · simp [execute, executeWith, hh, hp, hran, Led.sub, Led.unsub, Led.unsubOpt, upd_upd, upd_self, sl, se, hl, hel,
+        hp', hs', hes', sizeOf', Clean, liveOf, hs, hes]
+      all_goals ((repeat' constructor) <;> first | assumption | omega | (split <;> simp) | (intro n hn; omega) | (simp +arith [List.filter] <;> omega))
+    · cases el <;> cases hr2 : fin.ran <;>
+        simp [execute, executeWith, hh, secondAttempt, election, hp, hran, hr2, Led.sub, Led.unsub, Led.unsubOpt,
+          Led.esub, Led.eunsub, upd_upd, upd_self, sl, se, hl, hel, hp', hs', hes', sizeOf', Clean, liveOf, hs, hes,
+          waitSubs2] <;>
+        ((repeat' constructor) <;> first | assumption | omega | (split <;> simp) | (intro n hn; omega) | (simp +arith [List.filter] <;> omega))
+    · simp [execute, executeWith, hh, hp, hran, Led.sub, Led.unsub, Led.unsubOpt, upd_upd, upd_self, sl, se, hl, hel,
+        hp', hs', hes', sizeOf', Clean, liveOf, hs, hes]
+      all_goals ((repeat' constructor) <;> first | assumption | omega | (split <;> simp) | (intro n hn; omega) | (simp +arith [List.filter] <;> omega))
+    · cases el <;> cases hr2 : fin.ran <;>
+        simp [execute, executeWith, hh, secondAttempt, election, hp, hran, hr2, Led.sub, Led.unsub, Led.unsubOpt,
+          Led.esub, Led.eunsub, upd_upd, upd_self, sl, se, hl, hel, hp', hs', hes', sizeOf', Clean, liveOf, hs, hes,
+          waitSubs2] <;>
+        ((repeat' constructor) <;> first | assumption | omega | (split <;> simp) | (intro n hn; omega) | (simp +arith [List.filter] <;> omega))
 
-/-- **C09 (b), any order.** Any sequence of sessions (any ids, roles, process counts, outcomes in any order) run one
-    after another on an idle coordinator leaves it idle, and every single one of them — including a re-use of an id
-    whose earlier session failed, timed out or was cancelled — is admitted and cleans up. -/
-theorem sessions_any_order (ss : List Sess) (r : Reg) (hr : r.Idle) :
-    (executeAll r ss).1.Idle ∧
-    (executeAll r ss).2.length = ss.length ∧
-    ∀ i (h : i < ss.length) (h' : i < (executeAll r ss).2.length),
-      Clean ss[i].nproc (executeAll r ss).2[i] := by
-  induction ss generalizing r with
-  | nil => exact ⟨hr, rfl, fun i h => absurd h (Nat.not_lt_zero _)⟩
+/-- **C09 (b), any order.** Any sequence of sessions (any ids, roles, process counts, first and second attempts in any
+    order) run one after another on an idle coordinator leaves it idle, and every single one of them — including a
+    re-use of an id whose earlier session failed, timed out, was retried or was cancelled — is admitted and cleans up. -/
+theorem sessions_any_order (ss : List Sess) (l : Led) (hi : l.Idle) :
+    (executeAll l ss).1.Idle ∧
+    (executeAll l ss).2.length = ss.length ∧
+    ∀ i (h : i < ss.length) (h' : i < (executeAll l ss).2.length),
+      Clean ss[i].nproc (executeAll l ss).2[i] := by
+  induction ss generalizing l with
+  | nil => exact ⟨hi, rfl, fun i h => absurd h (Nat.not_lt_zero _)⟩
   | cons s ss ih =>
-    obtain ⟨hp, hl, hs⟩ := hr
-    obtain ⟨h1, h2, h3, _, h5⟩ := session_cleans_up r s (by intro x hx; rw [hl] at hx; cases hx)
-      (by simp [hp]) (by simp [hs])
-    have ih' := ih (execute r s).1 ⟨h1.trans hp, h2.trans hl, h3.trans hs⟩
+    obtain ⟨hp, hl, hs, hel, hes⟩ := hi
+    obtain ⟨h1, h2, h3, h4, h5, h7⟩ := session_cleans_up l s (by simp [hp]) (by simp [hs]) (by simp [hes])
+      (hl _) (hel _)
+    have ih' := ih (execute l s).1 ⟨h1.trans hp, fun x => by rw [h2]; exact hl x, h3.trans hs,
+      fun x => by rw [h4]; exact hel x, h5.trans hes⟩
     simp only [executeAll]
     refine ⟨ih'.1, by simp [ih'.2.1], ?_⟩
     intro i h h'
     cases i with
-    | zero => simpa using h5 (by simp [hl])
+    | zero => simpa using h7
     | succ i =>
       simp only [List.getElem_cons_succ]
       exact ih'.2.2 i (by simpa using h) (by simpa using h')
 
 /-- a refused duplicate touches no registry -/
-theorem refusal_touches_nothing (r : Reg) (s : Sess) (hp : s.sid ∈ r.pending) :
-    (execute r s).1 = r ∧ (execute r s).2.ret = .refused := by
-  simp [execute, hp]
+theorem refusal_touches_nothing (l : Led) (s : Sess) (hp : s.sid ∈ l.pending) :
+    (execute l s).1 = l ∧ (execute l s).2.ret = .refused := by
+  simp [execute, executeWith, hp]
 
-/-- non-vacuity: a participant session with two processes whose coordinator stays silent, then the same id again,
-    successfully, while another id's subscription (id 7) stays untouched -/
+/-- as found, every bully election left its six subscriptions and its streams on the election communication (witness
+    kept as corpus line `sess a:P:1:silent>self:idle`) -/
+theorem asfound_election_leaks :
+    (executeWith electionAsFound (Led.empty 0)
+      ⟨"a", .part, 1, .silent, true, some ⟨.self, .idle⟩⟩).2.elive = 6 := by decide
+
+/-- non-vacuity: a participant session with two retryable processes whose coordinator stays silent, retried through
+    an election this relayer wins and then successful; then the same id again; another id's subscriptions (handle 7,
+    on both communications) stay untouched -/
 example :
-    let r0 : Reg := ⟨[], [("z", 7)], [], 8⟩
-    let (r1, rep1) := execute r0 ⟨"a", .part, 2, .silent⟩
-    let (r2, rep2) := execute r1 ⟨"a", .coord, 2, .ok⟩
-    rep1.ret = .err ∧ rep1.sub = 3 ∧ rep1.runs = [0, 0] ∧ rep1.stops = [1, 1] ∧
-    rep2.ret = .ok ∧ rep2.sub = 4 ∧ rep2.runs = [1, 1] ∧ r2.live = [("z", 7)] ∧ r2.next = 15 := by decide
+    let l0 : Led := ⟨[], fun s => if s = "z" then [⟨"z", 7, 2⟩] else [], [], fun _ => [], ["z"], 8, 2, 0⟩
+    let r1 := execute l0 ⟨"a", .part, 2, .silent, true, some ⟨.self, .ok⟩⟩
+    let r2 := execute r1.1 ⟨"a", .coord, 2, .comm, true, some ⟨.self, .fail⟩⟩
+    r1.2.ret = .ok ∧ r1.2.sub = 7 ∧ r1.2.unsub = 7 ∧ r1.2.runs = [1, 1] ∧ r1.2.stops = [1, 1] ∧
+    r2.2.ret = .err ∧ r2.2.sub = 8 ∧ r2.2.runs = [2, 2] ∧ r2.2.elive = 0 ∧
+    r2.1.live "z" = [⟨"z", 7, 2⟩] ∧ r2.1.live "a" = [] ∧ r2.1.estreams = ["z"] := by decide
 
 /-- **C09 (b), retried process.** A process object that is Run any number of times (the coordinator's retry rounds)
     and then stopped once leaves the subscription registry exactly as it found it. -/
